@@ -36,8 +36,14 @@ func nextAddr() (n4 string, httpPort int) {
 	rigMu.Lock()
 	defer rigMu.Unlock()
 	rigN++
-	n4 = fmt.Sprintf("127.%d.%d.1", 100+shard%100, rigN%250)
-	httpPort = 20000 + (shard*400+rigN)%40000
+	// unique per rig for 62500 rigs: an abandoned agent keeps listening (SO_REUSEPORT), so an address
+	// must never be reused within a process or datagrams could be delivered to the old instance
+	n4 = fmt.Sprintf("127.%d.%d.%d", 100+shard%100, (rigN/250)%250, 1+rigN%250)
+	if rig.HaveNetns() {
+		httpPort = 10000 + rigN%50000
+	} else {
+		httpPort = 10000 + (shard%16)*3000 + rigN%3000
+	}
 	return
 }
 
@@ -176,3 +182,20 @@ func coreIP() string {
 }
 
 var _ = net.IPv4zero
+
+// cmdDiag summarises the datapath command log for failure messages.
+func cmdDiag(r *Rig) string {
+	if r.B == nil {
+		return ""
+	}
+	cmds := r.B.LogSince(0)
+	out := fmt.Sprintf("this server %s; datapath log (%d commands):", r.B.Addr, len(cmds))
+	from := 0
+	if len(cmds) > 40 {
+		from = len(cmds) - 40
+	}
+	for _, c := range cmds[from:] {
+		out += fmt.Sprintf("\n  #%d %s %s key=%s err=%q", c.Seq, c.Module, c.Cmd, c.Key, c.Err)
+	}
+	return out
+}
